@@ -1239,4 +1239,109 @@ theorem hit_iff_attachable (allowIp : Bool) (now : Int) (j : Jar) (host rpath : 
     · rw [hs] at h4; cases h4
     · exact h4
 
+
+theorem filter_out_spec (allowIp : Bool) (now : Int) (j : Jar) (host rpath : Str) (sec : Bool) (hI : Inv j) :
+    (∀ n v, aget n (filter allowIp now j host rpath sec).2 = some v →
+      ∃ e ∈ hits allowIp (doExpiration j now) host rpath sec, e.c.name = n ∧ e.c.value = v) ∧
+    (∀ e ∈ hits allowIp (doExpiration j now) host rpath sec,
+      (aget e.c.name (filter allowIp now j host rpath sec).2).isSome) := by
+  unfold filter
+  obtain ⟨_, _, _, _, _, b6, _, b8⟩ :=
+    fold_assign (hits allowIp (doExpiration j now) host rpath sec) (doExpiration j now) []
+      (inv_doExpiration j now hI) (hits_sub _ _ _ _ _)
+  refine ⟨?_, b8⟩
+  intro n v hv
+  rcases b6 n v hv with h | h
+  · simp [aget] at h
+  · exact h
+
+/-- an entry that survives `_do_expiration` was there before and its recorded deadline is in the future -/
+theorem survivor (j : Jar) (now : Int) (hI : Inv j) (e : Entry) (he : e ∈ (doExpiration j now).cookies) :
+    e ∈ j.cookies ∧ ∀ w, aget e.key j.expirations = some w → now < w := by
+  obtain ⟨h1, h2⟩ := (doExpiration_cookies j now e).mp he
+  refine ⟨h1, ?_⟩
+  intro w hw
+  by_cases hle : w ≤ now
+  · rcases h2 with h2 | h2
+    · have := hI.heap _ _ hw
+      have hnil : j.heap = [] := by simpa using h2
+      rw [hnil] at this; simp at this
+    · exact absurd (mem_dueKeys j now e.key w hI hw hle) h2
+  · omega
+
+theorem isDomainMatch_self (h : Str) : isDomainMatch h h = true := by
+  unfold isDomainMatch; simp
+
+/-- one loop iteration of `update_cookies` for a response from `h` leaves everything outside `h`'s domain alone -/
+theorem acceptOne_frame (now : Int) (h rpath : Str) (j : Jar) (r : Raw) (hh : h ≠ []) (hu : j.cookies.Pairwise (fun a b => a.key ≠ b.key)) :
+    (acceptOne now (some h) rpath j r).cookies.Pairwise (fun a b => a.key ≠ b.key) ∧
+    (∀ e, isDomainMatch e.dom h = false →
+      (e ∈ (acceptOne now (some h) rpath j r).cookies ↔ e ∈ j.cookies)) ∧
+    (∀ d n, isDomainMatch d h = false →
+      ((d, n) ∈ (acceptOne now (some h) rpath j r).hostOnly ↔ (d, n) ∈ j.hostOnly)) ∧
+    (∀ k : Key, isDomainMatch k.1 h = false →
+      aget k (acceptOne now (some h) rpath j r).expirations = aget k j.expirations) := by
+  rw [acceptOne_eq]
+  have hHO : ∀ d n, isDomainMatch d h = false →
+      ((d, n) ∈ (normDomain j (some h) r.name r.domain).1.hostOnly ↔ (d, n) ∈ j.hostOnly) := by
+    intro d n hd
+    rcases normDomain_fst j (some h) r.name r.domain with h1 | ⟨h', hh', h1⟩ <;> rw [h1]
+    simp only [mem_sadd]
+    cases hh'
+    constructor
+    · rintro (h2 | h2)
+      · simp only [Prod.mk.injEq] at h2
+        rw [h2.1, isDomainMatch_self] at hd; cases hd
+      · exact h2
+    · intro h2; exact Or.inr h2
+  have hEX : (normDomain j (some h) r.name r.domain).1.expirations = j.expirations := by
+    rcases normDomain_fst j (some h) r.name r.domain with h1 | ⟨_, _, h1⟩ <;> rw [h1]
+  split
+  · refine ⟨by rw [normDomain_cookies]; exact hu, ?_, hHO, ?_⟩
+    · intro e _; rw [normDomain_cookies]
+    · intro k _; rw [hEX]
+  · next hrej =>
+    generalize hdm : (normDomain j (some h) r.name r.domain).2 = dm at hrej ⊢
+    have hmatch : isDomainMatch dm h = true := by
+      cases hm : isDomainMatch dm h with
+      | true => rfl
+      | false => exact absurd (by simp [rejected, hm, hh]) hrej
+    refine ⟨?_, ?_, ?_, ?_⟩
+    · simp only [storeEntry]
+      apply putEntry_pairwise
+      rw [expStage_cookies, normDomain_cookies]; exact hu
+    · intro e he
+      simp only [storeEntry, expStage_cookies, normDomain_cookies]
+      have hne : e.dom ≠ dm := by intro h'; rw [h', hmatch] at he; cases he
+      constructor
+      · intro hx
+        rcases mem_putEntry_sub _ e _ hx with rfl | hx
+        · exact absurd rfl hne
+        · exact hx
+      · intro hx
+        apply mem_putEntry_of_mem _ _ _ hx
+        intro hk
+        simp only [Entry.key, entryOf, Prod.mk.injEq] at hk
+        exact hne hk.1
+    · intro d n hd
+      simp only [storeEntry, expStage_hostOnly]
+      exact hHO d n hd
+    · intro k hk
+      simp only [storeEntry]
+      have hne : ¬ ((dm, rstripSlash (effPath rpath r), r.name) : Key) = k := by
+        intro h'; rw [← h'] at hk; simp only at hk; rw [hmatch] at hk; cases hk
+      unfold expStage
+      split
+      · unfold expireCookie; split
+        · exact congrArg _ hEX
+        · simp only [aget_aset]; simp [hne, hEX]
+      · exact congrArg _ hEX
+      · split
+        · split
+          · exact congrArg _ hEX
+          · unfold expireCookie; split
+            · exact congrArg _ hEX
+            · simp only [aget_aset]; simp [hne, hEX]
+        · exact congrArg _ hEX
+
 end Aio.C16
